@@ -5,7 +5,8 @@ Import ListNotations.
 
 (* c_env = the scripted environment the real executor ran against; c_tr / c_res = the requests
    the environment received (with its answers) and whether Exec returned nil *)
-Record case := mkcase { c_env : env; c_tr : list ev; c_res : result }.
+(* c_ups = per request that reached a real origin: (status answered, upload accepted during it) *)
+Record case := mkcase { c_env : env; c_tr : list ev; c_res : result; c_ups : list (N * bool) }.
 
 Fixpoint idx_filter (f : case -> bool) (i : N) (cs : list case) : list N :=
   match cs with
@@ -18,7 +19,7 @@ Definition agrees (c : case) : bool :=
 
 Definition mismatches (cs : list case) : list N := idx_filter (fun c => negb (agrees c)) 0%N cs.
 Definition violations (cs : list case) : list N :=
-  idx_filter (fun c => negb (C33_check (c_env c) (c_tr c) (c_res c))) 0%N cs.
+  idx_filter (fun c => negb (C33_check (c_env c) (c_tr c) (c_res c) && C33_uploads_check (c_ups c))) 0%N cs.
 
 (* short names used by the driver *)
 Notation C := RCode (only parsing).
